@@ -83,10 +83,13 @@ fn mk_default(d: u64) -> Expr {
 
 fn mk_arg(p: &P) -> Arg {
     ast::Arg {
-        range: TextRange::default(),
+        // every field of the parameter node is made observable: the range is derived from the name id and an
+        // annotated parameter also carries a type comment derived from the annotation id, so that a conversion which
+        // drops or swaps ANY part of a parameter (not only name / annotation / default) changes the printed form
+        range: TextRange::new((p.name as u32 * 10).into(), (p.name as u32 * 10 + 3).into()),
         arg: ast::Identifier::new(format!("p{}", p.name)),
         annotation: p.ann.map(|a| Box::new(mk_ann(a))),
-        type_comment: None,
+        type_comment: p.ann.map(|a| format!("c{a}")),
     }
 }
 
@@ -211,12 +214,50 @@ fn show_default(e: &Expr) -> String {
     }
 }
 
+thread_local! {
+    static EXPECT: std::cell::RefCell<std::collections::HashMap<String, (TextRange, Option<String>)>> =
+        std::cell::RefCell::new(std::collections::HashMap::new());
+}
+
+fn expect_arg(a: &Arg) {
+    EXPECT.with(|e| {
+        e.borrow_mut()
+            .insert(a.arg.as_str().to_string(), (a.range, a.type_comment.clone()));
+    });
+}
+
+/// record range and type comment of every parameter of the input (parameter names are distinct in every request)
+fn expect_from(a: &Arguments) {
+    EXPECT.with(|e| e.borrow_mut().clear());
+    for p in a.posonlyargs.iter().chain(&a.args).chain(&a.kwonlyargs) {
+        expect_arg(&p.def);
+    }
+    if let Some(v) = &a.vararg {
+        expect_arg(v);
+    }
+    if let Some(k) = &a.kwarg {
+        expect_arg(k);
+    }
+}
+
 fn show_arg(a: &Arg) -> String {
     let mut s = id_of(a.arg.as_str(), 'p');
     if let Some(ann) = &a.annotation {
         s.push(':');
         s.push_str(&show_ann(ann));
     }
+    // the parts the model does not carry (range, type comment) must be those of the parameter of the same name in the
+    // INPUT of the conversion (recorded by `expect_from`)
+    EXPECT.with(|e| {
+        if let Some((r, tc)) = e.borrow().get(a.arg.as_str()) {
+            if &a.type_comment != tc {
+                s.push_str("!type_comment");
+            }
+            if &a.range != r {
+                s.push_str("!range");
+            }
+        }
+    });
     s
 }
 
@@ -359,14 +400,32 @@ fn handle(ws: &[&str]) -> String {
                 None => return bad(),
             };
             match obtain(mode, &sig) {
-                Some(a) if *op == "rt" => rt(&a),
-                Some(a) => topy(&a),
+                Some(a) if *op == "rt" => {
+                    expect_from(&a);
+                    rt(&a)
+                }
+                Some(a) => {
+                    expect_from(&a);
+                    topy(&a)
+                }
                 None if *mode == "p" => "parse-error".into(),
                 None => bad(),
             }
         }
         ["intoargs", pysig] => match parse_pysig(pysig) {
-            Some(p) => intoargs(p),
+            Some(p) => {
+                EXPECT.with(|e| e.borrow_mut().clear());
+                for a in p.posonlyargs.iter().chain(&p.args).chain(&p.kwonlyargs) {
+                    expect_arg(a);
+                }
+                if let Some(v) = &p.vararg {
+                    expect_arg(v);
+                }
+                if let Some(k) = &p.kwarg {
+                    expect_arg(k);
+                }
+                intoargs(p)
+            }
             None => bad(),
         },
         _ => bad(),
